@@ -233,3 +233,49 @@ def replay_items(path, prefixes, prop):
     if rc:
         print(f"VIOLATION property={prop} replay={path}")
     return rc
+
+
+def strict_stage(rep, tier, seed, focus, n=None):
+    """Layer B binding: mechanism-level traces of the real engine replayed through the operators of NucsMech
+    (spec/MechTrace.tla).  A mismatch is DRIFT (printed, exit code unaffected).  One trace is corrupted on purpose
+    and must be rejected (negative control: the binding is not vacuous)."""
+    n = n or (300 if tier == "quick" else 6000)
+    items = [it for it in _random_items(tier, seed + 1, focus, n)][:n]
+    for k, it in enumerate(items):
+        it["id"] = k
+    with Scratch("strict") as tmp:
+        jobs = [{"items": items[k::NCPU], "probes": False, "strict": True} for k in range(NCPU) if items[k::NCPU]]
+        outs = run_workers("rec_engine.py", jobs, nucs_env(jit=False), tmp, timeout=3000)
+        traces = list(read_ndjson(outs))
+        for f in outs:
+            f.unlink()
+        # negative control: flip one queue entry / shift one bound in a copy of the first suitable trace
+        ctrl = None
+        for t in traces:
+            idx = [i for i, ev in enumerate(t["ev"]) if ev["k"] == "P" and ev["alg"] == 0 and not ev["trunc"] and ev["q"]]
+            if idx:
+                ctrl = json.loads(json.dumps(t))
+                ctrl["id"] = 10 ** 6
+                ev = ctrl["ev"][idx[len(idx) // 2]]
+                ev["q"][0] = not ev["q"][0]
+                break
+        if ctrl is None:
+            raise Machinery("no trace suitable for the strict negative control")
+        verdicts, judged, st, tr = validate_shards("MechTrace", "MechTrace.cfg", "MTRACES", traces + [ctrl], tmp,
+                                                   extra_env={"FAMILY": str(tmp / "none.ndjson")})
+    drift = {}
+    ctrl_hit = False
+    for rid, l, clause in verdicts:
+        if rid == 10 ** 6:
+            ctrl_hit = True
+            continue
+        drift[clause] = drift.get(clause, 0) + 1
+    if not ctrl_hit:
+        raise Machinery("negative control failed: a corrupted queue snapshot was accepted by MechTrace")
+    for clause, k in sorted(drift.items()):
+        print(f"DRIFT layer=mech clause={clause} traces={k} (the mechanism mirror is stale; no property is decided by it)")
+    rep.add(states=st, transitions=tr)
+    rep.cov["strict_mechanism_traces"] = {"spec": "spec/MechTrace.tla", "traces": len(traces),
+                                          "events": sum(len(t["ev"]) for t in traces), "drift": drift,
+                                          "negative_control": "one flipped queue entry: rejected"}
+    return drift
